@@ -51,8 +51,8 @@ func init() {
 	}
 	mk(mh.BLAKE2B_MIN+7, -1) // blake2b-64: below the allowed blake2b range
 	mk(mh.MURMUR3X64_64, -1) // not in the allowlist
-	mk(mh.SHA2_256, 10)    // allowed function, digest shorter than the minimum of 20
-	mk(mh.MD5, -1)         // not in the allowlist
+	mk(mh.SHA2_256, 10)      // allowed function, digest shorter than the minimum of 20
+	mk(mh.MD5, -1)           // not in the allowlist
 	for i, h := range pool {
 		idOf[string(h)] = uint64(i + 1)
 	}
@@ -101,16 +101,28 @@ func genStream(e *vh.Env, maxLen int) []key {
 func keysCoq(s []key) string { return vh.ListOf(s, key.coq) }
 
 // ---- recording routers ----
+// A call whose index (0-based, in arrival order) is in fail is recorded and then answered with an
+// error: a router fault. The reprovider only logs it, so the calls it makes must not depend on it.
 type manyRouter struct {
 	mu      sync.Mutex
 	batches [][]uint64
+	fail    map[int]bool
+}
+
+var errRouter = errors.New("router fault")
+
+func (r *manyRouter) verdict() error {
+	if r.fail[len(r.batches)-1] {
+		return errRouter
+	}
+	return nil
 }
 
 func (r *manyRouter) Provide(ctx context.Context, c cid.Cid, _ bool) error {
 	r.mu.Lock()
 	defer r.mu.Unlock()
 	r.batches = append(r.batches, []uint64{idOf[string(c.Hash())]})
-	return nil
+	return r.verdict()
 }
 func (r *manyRouter) ProvideMany(ctx context.Context, keys []mh.Multihash) error {
 	r.mu.Lock()
@@ -121,12 +133,14 @@ func (r *manyRouter) ProvideMany(ctx context.Context, keys []mh.Multihash) error
 	}
 	sort.Slice(b, func(i, j int) bool { return b[i] < b[j] })
 	r.batches = append(r.batches, b)
-	return nil
+	return r.verdict()
 }
 
 type singleRouter struct{ m *manyRouter }
 
-func (r singleRouter) Provide(ctx context.Context, c cid.Cid, a bool) error { return r.m.Provide(ctx, c, a) }
+func (r singleRouter) Provide(ctx context.Context, c cid.Cid, a bool) error {
+	return r.m.Provide(ctx, c, a)
+}
 
 type config struct {
 	maxBatch    uint64 // math.MaxUint64 = option not given
@@ -161,8 +175,8 @@ func (c config) effective() uint64 {
 	return b
 }
 
-func runReprovide(t *testing.T, c config, stream []key) (terminated bool, batches [][]uint64) {
-	rec := &manyRouter{}
+func runReprovide(t *testing.T, c config, stream []key, fail map[int]bool) (terminated bool, batches [][]uint64) {
+	rec := &manyRouter{fail: fail}
 	var router provider.Provide = rec
 	if !c.provideMany {
 		router = singleRouter{rec}
@@ -247,21 +261,27 @@ func TestC44(t *testing.T) {
 	badCoq := vh.ListOf(badIDs, vh.N)
 
 	type rcase struct {
-		c config
-		s []key
+		c    config
+		s    []key
+		fail []int // router calls answered with an error
 	}
 	// corpus: boundaries and the witness of finding C44-1 (batch size 0)
 	k := func(tag, id uint64) key { return key{tag, id} }
 	corpus := []rcase{
-		{config{setMax: true, maxBatch: 0, provideMany: true}, []key{k(1, 1)}},                              // C44-1
-		{config{provideMany: true, hasCb: true, minProvides: 0}, []key{k(1, 1), k(1, 2)}},                    // C44-1 via ThroughputReport(f, 0)
-		{config{setMax: true, maxBatch: 1, provideMany: true}, []key{k(1, 1), k(1, 2), k(1, 3)}},             // exact multiple of the batch
-		{config{setMax: true, maxBatch: 3, provideMany: true}, []key{k(1, 1), k(1, 2), k(1, 3)}},             // stream = one full batch
-		{config{setMax: true, maxBatch: 2, provideMany: true}, []key{k(1, 11), k(1, 12), k(1, 1), k(2, 13)}}, // rejected keys fill a batch
-		{config{setMax: true, maxBatch: 2, provideMany: true}, []key{k(0, 1), k(1, 1), k(2, 1)}},             // aliases of one multihash
-		{config{provideMany: true}, nil},
-		{config{provideMany: false, setMax: true, maxBatch: 7}, []key{k(1, 1), k(1, 2), k(1, 11), k(0, 3)}}, // single Provide router ignores MaxBatchSize
-		{config{provideMany: true, setMax: true, maxBatch: 5, hasCb: true, minProvides: 2}, []key{k(1, 1), k(1, 2), k(1, 3), k(1, 4), k(1, 5)}},
+		{config{setMax: true, maxBatch: 0, provideMany: true}, []key{k(1, 1)}, nil},                               // C44-1
+		{config{provideMany: true, hasCb: true, minProvides: 0}, []key{k(1, 1), k(1, 2)}, nil},                    // C44-1 via ThroughputReport(f, 0)
+		{config{setMax: true, maxBatch: 1, provideMany: true}, []key{k(1, 1), k(1, 2), k(1, 3)}, nil},             // exact multiple of the batch
+		{config{setMax: true, maxBatch: 3, provideMany: true}, []key{k(1, 1), k(1, 2), k(1, 3)}, nil},             // stream = one full batch
+		{config{setMax: true, maxBatch: 2, provideMany: true}, []key{k(1, 11), k(1, 12), k(1, 1), k(2, 13)}, nil}, // rejected keys fill a batch
+		{config{setMax: true, maxBatch: 2, provideMany: true}, []key{k(0, 1), k(1, 1), k(2, 1)}, nil},             // aliases of one multihash
+		{config{provideMany: true}, nil, nil},
+		{config{provideMany: false, setMax: true, maxBatch: 7}, []key{k(1, 1), k(1, 2), k(1, 11), k(0, 3)}, nil}, // single Provide router ignores MaxBatchSize
+		{config{provideMany: true, setMax: true, maxBatch: 5, hasCb: true, minProvides: 2}, []key{k(1, 1), k(1, 2), k(1, 3), k(1, 4), k(1, 5)}, nil},
+		// router faults: a failed batch is logged and dropped; later batches keep the configured size
+		{config{setMax: true, maxBatch: 2, provideMany: true}, []key{k(1, 1), k(1, 2), k(1, 3), k(1, 4), k(1, 5), k(1, 6), k(1, 7)}, []int{1}},
+		{config{setMax: true, maxBatch: 3, provideMany: true}, []key{k(1, 1), k(1, 2), k(1, 3), k(1, 4), k(1, 5), k(1, 6), k(1, 7), k(1, 8), k(1, 9)}, []int{0, 1}},
+		{config{provideMany: false}, []key{k(1, 1), k(1, 2), k(1, 3), k(1, 4)}, []int{0, 2}},
+		{config{setMax: true, maxBatch: 2, provideMany: true, hasCb: true, minProvides: 4}, []key{k(1, 1), k(1, 2), k(1, 11), k(1, 3), k(1, 4), k(1, 5)}, []int{0}},
 	}
 	n := e.Pick(400, 6000)
 	hung := 0
@@ -274,9 +294,19 @@ func TestC44(t *testing.T) {
 			if e.Rng.Intn(10) == 0 {
 				maxLen = 200
 			}
-			rc = rcase{genConfig(e), genStream(e, maxLen)}
+			rc = rcase{c: genConfig(e), s: genStream(e, maxLen)}
+			if e.Rng.Intn(3) == 0 {
+				// router faults on a few of the first calls
+				for j := 0; j < 1+e.Rng.Intn(3); j++ {
+					rc.fail = append(rc.fail, e.Rng.Intn(8))
+				}
+			}
 		}
-		term, batches := runReprovide(t, rc.c, rc.s)
+		failSet := map[int]bool{}
+		for _, j := range rc.fail {
+			failSet[j] = true
+		}
+		term, batches := runReprovide(t, rc.c, rc.s, failSet)
 		if !term && rc.c.effective() != 0 {
 			// a pass that should finish hit the 20 s watchdog: a few such cases establish the violation,
 			// more of them would only burn the time budget
@@ -284,7 +314,7 @@ func TestC44(t *testing.T) {
 		}
 		cs.Add(vh.App("CReprovide", rc.c.coq(), badCoq, keysCoq(rc.s), vh.Bool(term), batchesCoq(batches)),
 			map[string]any{"kind": "reprovide", "config": rc.c.coq(), "bad_multihash_ids": badIDs, "stream": keysCoq(rc.s),
-				"terminated": term, "batches": batches})
+				"terminated": term, "batches": batches, "router_calls_answered_with_error": rc.fail})
 		seen, nontriv := map[key]bool{}, false
 		for _, x := range rc.s {
 			if seen[x] || x.id > nGood {
@@ -298,6 +328,9 @@ func TestC44(t *testing.T) {
 		st.Count(fmt.Sprintf("stream-len=%s", bucket(uint64(len(rc.s)))))
 		if !rc.c.provideMany {
 			st.Count("single-provide-router")
+		}
+		if len(rc.fail) > 0 {
+			st.Count("router-faults")
 		}
 		st.Sample(map[string]any{"config": rc.c.coq(), "stream": keysCoq(rc.s), "batches": batches, "terminated": term}, 4)
 	}
